@@ -3,12 +3,12 @@
 # from /repo's current working tree by the translator first.
 set -e
 cd "$(dirname "$0")"
-export PYTHONPATH=/repo:/verif/harness:/verif/translator PYTHONHASHSEED=0
+HERE="$(pwd)"; export PYTHONPATH=/repo:"$HERE"/harness:"$HERE"/translator PYTHONHASHSEED=0
 if [ -f translator/py2coq.py ]; then
   /venv/bin/python -W ignore translator/py2coq.py --all 2> >(grep -v -i conda >&2) || echo "translator reported a problem (checks will report it)"
 fi
 cd coq
 coq_makefile -f _CoqProject -o Makefile > /dev/null
 timeout 3000 make -j16 -k 2>&1 | tail -15
-/venv/bin/python -m compileall -q /verif/harness /verif/translator > /dev/null 2>&1 || true
+/venv/bin/python -m compileall -q "$HERE"/harness "$HERE"/translator > /dev/null 2>&1 || true
 exit 0
